@@ -99,7 +99,11 @@ func fdsInto(root string) []string {
 		}
 		t = strings.TrimSuffix(t, " (deleted)")
 		if t == root || strings.HasPrefix(t, root+"/") {
-			out = append(out, strings.TrimPrefix(t, root))
+			if t == root {
+				out = append(out, "/ (the exported root)")
+			} else {
+				out = append(out, strings.TrimPrefix(t, root))
+			}
 		}
 	}
 	sort.Strings(out)
@@ -382,7 +386,6 @@ func runUfs(c *Case, res *result) (err error) {
 		}
 	}
 
-	tolerantA := hx.IsKnown(FindRespondBlocks) && c.Maxpend == 0
 	var whos []string
 	for _, f := range fl {
 		if f.parked {
@@ -392,6 +395,27 @@ func runUfs(c *Case, res *result) (err error) {
 	for _, t := range waitTags {
 		whos = append(whos, reqWho(vid, t))
 	}
+	return (&ufsEnv{c: c, res: res, k: k, u: u, root: root, by: by, g0: g0, g1: g1, vid: vid}).finish(whos)
+}
+
+// ufsEnv is what the part of a Ufs case after the disconnect needs.
+type ufsEnv struct {
+	c      *Case
+	res    *result
+	k      *ctl
+	u      *go9p.Ufs
+	root   string
+	by     *bystander
+	g0, g1 map[int]gor
+	vid    string
+}
+
+// finish: the victim has been cut and every request that was executing has
+// been released. whos are the requests that were outstanding at the cut.
+// Quiescence, then the descriptor oracle, then the bystander.
+func (e *ufsEnv) finish(whos []string) error {
+	c, res, k, u, root, by, g0, g1, vid := e.c, e.res, e.k, e.u, e.root, e.by, e.g0, e.g1, e.vid
+	tolerantA := hx.IsKnown(FindRespondBlocks) && c.Maxpend == 0
 	var left []gor
 	var why string
 	newGors := func() []gor {
@@ -519,7 +543,8 @@ func runUfs(c *Case, res *result) (err error) {
 	return nil
 }
 
-// inUfsOpen counts goroutines that are inside (*Ufs).Open in a system call.
+// inUfsOpen counts goroutines that are inside (*Ufs).Open or (*Ufs).Create in
+// a system call.
 func inUfsOpen() int {
 	n := 0
 	for _, g := range dumpAll() {
@@ -527,7 +552,7 @@ func inUfsOpen() int {
 			continue
 		}
 		for _, f := range g.funcs {
-			if strings.HasPrefix(f, libPrefix+"(*Ufs).Open(") {
+			if strings.HasPrefix(f, libPrefix+"(*Ufs).Open(") || strings.HasPrefix(f, libPrefix+"(*Ufs).Create(") {
 				n++
 				break
 			}
